@@ -1,6 +1,7 @@
 SPECIFICATION Spec
 CONSTANTS
   Names = {1, 2}
+  NValues = 2
   MaxEnv = 13
   MaxInc = 5
   MaxRaise = 2
